@@ -126,7 +126,7 @@ func C06(sp *spec.Spec, ex *rt.Exchange) *Verdict {
 			continue
 		}
 		if ev.Verdict == "accept" {
-			accepted[ev.Scheme] = true
+			accepted[rt.AuthKey(ev.Scheme, ev.Required)] = true
 		} else {
 			rejectKinds = append(rejectKinds, ev.Verdict)
 		}
@@ -196,7 +196,11 @@ func C06(sp *spec.Spec, ex *rt.Exchange) *Verdict {
 	for _, r := range reqs {
 		all := true
 		for _, s := range r.Schemes {
-			if c.Auth[s] != "accept" {
+			verdict := c.Auth[s]
+			if sv, ok := c.Auth[rt.AuthKey(s, r.Scopes)]; ok {
+				verdict = sv
+			}
+			if verdict != "accept" {
 				all = false
 			}
 		}
@@ -208,7 +212,8 @@ func C06(sp *spec.Spec, ex *rt.Exchange) *Verdict {
 	for _, r := range reqs {
 		all := true
 		for _, s := range r.Schemes {
-			if !accepted[s] {
+			// the callback of scheme s invoked for THIS requirement (its required scopes) accepted
+			if !accepted[rt.AuthKey(s, r.Scopes)] {
 				all = false
 			}
 		}
